@@ -129,6 +129,33 @@ class NumpyShim:
     def ascontiguousarray(self, obj, dtype=None):
         return self.asarray(obj, dtype)
 
+    def gradient(self, f, *varargs, axis=None, edge_order=1):
+        """numpy.gradient for unit spacing (numpy's own formulae: central differences inside, first / second order one-sided at the
+        edges); numpy's implementation casts object arrays to float64"""
+        f = np.asarray(f)
+        if f.dtype != object:
+            return np.gradient(f, *varargs, axis=axis, edge_order=edge_order)
+        if varargs or axis is not None:
+            raise NotImplementedError('gradient shim: unit spacing over all axes only')
+        outs = []
+        for ax in range(f.ndim):
+            n = f.shape[ax]
+            if n < edge_order + 1:
+                raise ValueError('Shape of array too small to calculate a numerical gradient, at least (edge_order + 1) elements are required.')
+            g = np.empty(f.shape, dtype=object)
+            fm = np.moveaxis(f, ax, 0)
+            gm = np.moveaxis(g, ax, 0)
+            for i in range(1, n - 1):
+                gm[i] = (fm[i + 1] - fm[i - 1]) / 2.0
+            if edge_order == 1:
+                gm[0] = fm[1] - fm[0]
+                gm[n - 1] = fm[n - 1] - fm[n - 2]
+            else:
+                gm[0] = -1.5 * fm[0] + 2.0 * fm[1] - 0.5 * fm[2]
+                gm[n - 1] = 0.5 * fm[n - 3] - 2.0 * fm[n - 2] + 1.5 * fm[n - 1]
+            outs.append(g)
+        return outs[0] if f.ndim == 1 else outs
+
     def matrix(self, data, *a, **k):
         if _has_sym(data):
             return ObjMatrix(np.array(data, dtype=object))
